@@ -18,6 +18,7 @@ Case kinds
            ones) + an incomplete tail (nothing / partial header / header announcing more than is
            there): handle_received must take every message in order, answer every `sync` with a
            `rply` of the same seqno, and leave exactly the tail in the buffer
+  protobufs encode_protobufs(list of 0..5 real MRP messages) -> decode_protobufs gives the same list
   pipe     send_protobuf(message) on one channel, the bytes fed to another channel's
            handle_received: the listener must get an equal protobuf message, the sender a reply
   bad      size field below 32, short buffers, oversized size field (error class / need)
@@ -128,8 +129,10 @@ def gen_cases(ctx):
         cases.append({"kind": "bad", "data": (bytes(body) + extra).hex()})
     for _ in range(ctx.scale(40, 600)):
         cases.append({"kind": "bad", "data": rng.bytes_(rng.randint(0, 31)).hex()})
-    for i in range(ctx.scale(6, 40)):
+    for i in range(ctx.scale(8, 40)):
         cases.append({"kind": "pipe", "which": i})
+    for _ in range(ctx.scale(20, 300)):
+        cases.append({"kind": "protobufs", "which": [rng.randrange(64) for _ in range(rng.choice([0, 1, 2, 3, 5]))]})
     return cases
 
 
@@ -261,6 +264,16 @@ def oracle(case):
         elif replies != want_replies:
             out.append((f"datastream:stream-replies:{cls}", repr(replies)[:200], repr(want_replies)[:200],
                         "every sync must be answered by a decodable rply with the same sequence number"))
+    elif kind == "protobufs":
+        pbs = _pipe_messages()
+        chosen = [pbs[i % len(pbs)] for i in case["which"]]
+        enc = _obs(B.encode_protobufs, chosen)
+        dec = _obs(B.decode_protobufs, enc[1]) if enc[0] == "ok" else enc
+        want = [m.SerializeToString() for m in chosen]
+        got = [m.SerializeToString() for m in dec[1]] if dec[0] == "ok" else dec
+        if got != want:
+            out.append(("datastream:protobufs", repr(got)[:200], f"{len(want)} messages, equal to those encoded",
+                        "decode_protobufs(encode_protobufs(messages)) != messages"))
     elif kind == "pipe":
         pbs = _pipe_messages()
         pb = pbs[case["which"] % len(pbs)]
@@ -373,7 +386,7 @@ def run(ctx, only=None):
             if impl != m_recv:
                 ctx.disagree(c, impl[:300], m_recv[:300], where="datastream handle_received (malformed)")
             ctx.validated(2)
-        nontrivial = (kind in ("reply", "bad", "pipe") or (kind == "msg" and (not c["m"]["payload"] or c["rest"]))
+        nontrivial = (kind in ("reply", "bad", "pipe", "protobufs") or (kind == "msg" and (not c["m"]["payload"] or c["rest"]))
                       or (kind == "stream" and (len(c["msgs"]) > 1 or c["tail"] or any(not m["payload"] for m in c["msgs"]))))
         ctx.case([kind, c.get("m"), c.get("rest"), c.get("msgs"), c.get("tail"), c.get("data"), c.get("seqno"), c.get("which")],
                  bool(nontrivial), sample=_short(c))
